@@ -5,6 +5,7 @@ BASE_NOTE = ("Bounded symbolic execution of the MIR rustc emits for /repo's curr
              "Z3 decides every branch and every obligation within the bounds listed in the evidence file; std/bytes/priority-queue items are reference models; "
              "counterexamples are replayed against the native build (dev and release) before VIOLATION is printed; exit 2 = inconclusive (unsupported construct, wall cap, or non-reproducing counterexample).")
 CLAIMED = {
+ 'C16': ("from_labels accepts exactly the label sequences with a single final empty label and encoded length <= 255 (lengths symbolic over {0,1,62,63}, up to 6/7 labels, limit reached) and records that length; Label::try_from accepts exactly <= 63 octets and lower-cases; every ASCII text of up to 8/11 symbolic chars is accepted by from_dotted_string exactly when the reference reading accepts it, yields the lower-cased labels, equals its case-flipped spelling and survives to_dotted_string; joins and relative names satisfy the invariant or are rejected; is_subdomain_of equals label-wise suffix. Names decoded from the wire are checked for the invariant inside the C03 harnesses.", "§4 C16"),
  'C04': ("Integer<->enum codecs and the header codec are bijections over their full domains; every Message within the bounds (1 question, 2 records over all 19 RDATA variants, names from a symbolic universe so that equal/different names and hence compression are solver-decided) satisfies from_octets(to_octets(m)) == m and is read identically by the independent decoder; an emitted compression pointer addresses the first occurrence for every buffer offset 12..65535 (symbolic); re-encoding every decoded message of the C03 input families decodes to the same message.", "§4 C04"),
  'C03': ("Every byte string within the bounds (fully symbolic name buffers, header of every length 0..12, message bodies, single-RR templates with symbolic TYPE/RDLENGTH/RDATA, label and 255-octet boundaries) decodes without panic/overflow/non-termination, errors carry the id, accept/reject and decoded content agree with an independent RFC 1035 decoder co-executed on the same symbolic bytes, pointer recursion strictly decreases.", "§4 C03"),
 }
@@ -15,7 +16,7 @@ NA = {
  'C18': "Which address is contacted is observable only at the transport across async nameserver-address resolution (hints, glue, cache, recursive lookup); not encodable within reach.",
  'C19': "Atomicity of reload concerns interleavings of a signal, file-system state and in-flight requests on a tokio RwLock in a live process; not encodable.",
 }
-PENDING = ['C01','C02','C05','C06','C10','C11','C12','C13','C14','C15','C16','C17']
+PENDING = ['C01','C02','C05','C06','C10','C11','C12','C13','C14','C15','C17']
 def main():
     checks=[]
     for pid,(text,ref) in sorted(CLAIMED.items()):
